@@ -7,6 +7,60 @@ HERE = pathlib.Path(__file__).resolve().parent
 BASE = "cd /repo && /venv/bin/python -m pytest -ra -q -p no:cacheprovider --timeout=900 --continue-on-collection-errors"
 
 META = {
+    "C02": dict(
+        technique="dataflow facts over return terms of the four entry points and of the codec() factory (parameter-to-role flow, guard dominance of the identity coders, default-argument backend resolution)",
+        text="Partial: Codec.encode/decode and api.encode/decode are exactly encoder∘marshal and unmarshal∘decoder with every parameter flowing to its role; codec() wires supplied-or-generated routines, the caller's coders and codec_cls-or-Codec, identity coders only under isbytestype(t); all default coders are dumps/loads of one backend. That the bytes are valid JSON and decode∘encode = id depends on orjson/json and C01 and is not decided.",
+        note="Trusts dataclass keyword construction and the resolved backend import in compat.",
+        ref="DESIGN.md §4 C02",
+    ),
+    "C07": dict(
+        technique="worklist/visited typestate rule over get_type_graph paths + call-graph reachability (no build-time path into memoised factories) + proxy dataflow + taint rule of C03 in both directions",
+        text="Partial: the graph walk pushes a node only together with recording it visited and never re-pushes a revisited cyclic node (termination for finite type graphs); forward references dispatch first to a lazy proxy that resolves through the same-direction factory and delegates every call; no routine constructor can reach a memoised factory; composite routines pass no level through raw. Depth-d correctness on values is not decided.",
+        note="Assumes finitely many distinct annotations reachable; root-dependent generic-root failures are the C09 known finding.",
+        ref="DESIGN.md §4 C07",
+    ),
+    "C09": dict(
+        technique="path rules over get_type_graph (predecessor contribution, skip-only continue, flag/ForwardRef/revisit equivalence) + provenance analysis of the synthesised forward reference (drops-subscript summary, module source) + shape rules for _level/static_order/itertypes",
+        text="Partial: every non-skipped child contributes a predecessor and every parent is added; ForwardRef node ⇔ cyclic flag ⇔ revisit; _level = args ∪ hints of the unwrapped parent; reference roots delegate to the memoised self; the deferred node's name/module provenance is checked (one known finding: parameterised generics are deferred by their bare origin name). Duplicate-freeness and sequence equality across spellings are not decided.",
+        note="Trusts graphlib.TopologicalSorter.",
+        ref="DESIGN.md §4 C09",
+    ),
+    "C11": dict(
+        technique="branch-coverage and fixpoint rule over unwrap()'s loop paths + shared dispatch/context/graph facts + purity (ambient-read) analysis of memoised reference resolvers",
+        text="Partial: unwrap peels ClassVar/Final/TypeAliasType (value and string)/NewType and re-enters its loop after every peel; dispatch and construction use node.unwrapped; the context is double-keyed and falls back through unwrap then forward reference; graph nodes carry (annotation, unwrapped); memoised resolvers must be pure (one known finding: _resolve_module_name reads the call stack). Behavioural identity of W(T) and T routines on inputs is not decided.",
+        note="Resolution of bare names from arbitrary caller modules is dynamic by nature.",
+        ref="DESIGN.md §4 C11",
+    ),
+    "C12": dict(
+        technique="effect analysis: call-time state writes read back, alias analysis of memoised results to routine returns, representation-exposure candidates of memoised functions vs a frozen triage table, transitive ambient reads of memoised functions, in-place mutation of cached results",
+        text="Partial: no call-time state is written and read back outside two reasoned latches; memoised mutable results never reach a routine/API return un-rebuilt; memoised functions are pure and fine-keyed except the listed known findings (union-order-insensitive keys of the four factories and unwrap; stack-reading module resolver); no mutable defaults, no module-level container mutated outside the slotted guard, no input mutation, no consumer mutates a cached helper result. Equality with a cold process per operation is not decided.",
+        note="Trusts functools.cache keying on ==/hash and the oracle's coarse-equality table.",
+        ref="DESIGN.md §4 C12",
+    ),
+    "C15": dict(
+        technique="producer/consumer table agreement: skip set extracted from the graph walk vs seeded context keys and lookup forms of routine constructors; totality of dispatch paths",
+        text="Partial: every legal annotation the graph skips (typing.Any) is seeded with a pass-through routine in both factories' contexts (or all type-argument lookups are tolerant); unresolvable/None rows are routed, dispatch is total with an unconditional fallback, TypeVars are normalised, empty graphs and unknown field types fall back to no-ops. Error-freeness for the whole annotation grammar (unhashable annotations, Ellipsis revisits) is not decided.",
+        note="constants.empty is treated as a sentinel, not a legal type argument.",
+        ref="DESIGN.md §4 C15",
+    ),
+    "C16": dict(
+        technique="dominance/path rules over the 20-line dict subclass (lookup order, recursion guard, handler coverage, memo write shape, absence of shadowing hooks)",
+        text="Partial: __missing__ tries the unwrapped key before the forward reference, raises KeyError for a missed ForwardRef before any recursive lookup, writes only the looked-up value under the queried key; get() covers KeyError, returns the hit and the default; dict's own lookup is not shadowed. Agreement with the reference model over operation sequences is not decided.",
+        note="Trusts dict semantics (__missing__ only for absent keys).",
+        ref="DESIGN.md §4 C16",
+    ),
+    "C19": dict(
+        technique="acquire/release pairing over closure paths + provenance rules for the rebuilt class dictionary and slot tuple + guard rule for the pickle hook",
+        text="Partial: the module-level re-entrancy guard is released on every normal exit; __slots__ = fields(cls) names (+flags under their guards) − inherited slots with field defaults removed; the class is rebuilt from metaclass/name/bases/copied dict with __qualname__ propagated; the frozen pickle hook is installed only without user hooks. Instance-level equivalence (eq/hash/repr/copy/pickle) is not decided.",
+        note="Trusts type(name, bases, dict) and dataclasses.fields.",
+        ref="DESIGN.md §4 C19",
+    ),
+    "C20": dict(
+        technique="traversal-completeness rule per NodeTransformer override against the interpreter's ast grammar + loop-guard and operand-order rules for |-chain flattening + constant-table check against typing aliases",
+        text="Partial: every visit_X override visits all expression-valued fields of ast.X on every path (or defers to generic_visit); the left walk descends only through BitOr nodes and collects operands in source order; _GENERICS maps builtins to the typing alias whose __origin__ they are, with no value a key; transform() runs the transformer with the caller's union name over the whole tree; no BitOr BinOp is constructed. Structural equality of the evaluated types is not decided.",
+        note="Trusts ast.NodeTransformer.generic_visit and ast.parse/unparse.",
+        ref="DESIGN.md §4 C20",
+    ),
     "C13": dict(
         technique="path rule over unmarshaller terms: subject of the earliest identity guard vs lossy text decoder, restricted to table rows whose acceptance set (abstract predicate evaluation) has a text-like member",
         text="Partial: for families with text-like members (StrEnum) the identity check runs on the raw input before serdes.load; serdes.load is the identity off text; classes with their own iteration strategy are never content-peeked. Returning an equal reconstruction instead of the same object is accepted. Equality for adversarial strings and idempotence on values are not decided.",
